@@ -209,7 +209,7 @@ PROPS = {
         "trusted_base": TB_ALGEBRA + ["A-ENC / scalar_le: to_repr/from_repr are inverse on canonical encodings; the all-zero encoding is exactly the zero scalar",
                                       "L-SERDE: serde derive expansions, serde_bare, serde_json, hex and the curve crates' (de)serializers are NOT verified"],
         "hypotheses": [],
-        "not_decided": ["that the serde_bare encodings themselves are lossless is ASSUMED (L-SERDE: one uninterpreted encoding per type with decode(encode(v)) == v); proved on top of it: every byte-form wrapper hands the whole value to the encoder and returns what the decoder yields, the scheme tag <-> variant maps, the length guards", "serde_json / human-readable forms and the macro-generated Vec / Box conversions (one-line delegations)"],
+        "not_decided": ["that the serde_bare encodings themselves are lossless is ASSUMED (L-SERDE: one uninterpreted encoding per type with decode(encode(v)) == v); proved on top of it: every byte-form wrapper hands the whole value to the encoder and returns what the decoder yields, the scheme tag <-> variant maps, the length guards", "serde_json / human-readable forms (blsful's own array codec is checked by Kani, unit SERDE_ARRAY, bounded sizes)"],
     },
     "C16": {
         "units": [LEAF_ZERO_DETECTED, SERDE_ARR_C16, gen("C16", props=["lib_bytes.rs", "C16.rs"])],
